@@ -14,11 +14,12 @@ def matcher(fn):
   return fn
 
 
-def match(prop_id, violation, known_entries):
+def match(prop_id, violation, known_entries, prop_module=None):
+  local = getattr(prop_module, 'MATCHERS', {}) if prop_module is not None else {}
   for k in known_entries:
     if k.get('kind') != 'known':
       continue           # 'fixed' entries suppress nothing
-    fn = MATCHERS.get(k.get('matcher'))
+    fn = local.get(k.get('matcher')) or MATCHERS.get(k.get('matcher'))
     if fn is None:
       continue
     try:
